@@ -361,7 +361,7 @@ func (e *Exec) goArg(v Value) (interface{}, bool) {
 		return nil, true
 	}
 	// error / Stringer
-	if m := e.prog.LookupMethod(iv.t, nil, "Error"); m != nil && m.Signature.Params().Len() == 0 {
+	if m := e.findMethod(iv.t, "Error"); m != nil && m.Signature.Params().Len() == 0 {
 		r := e.call(nil, 0, m, []Value{iv.v})
 		if s, ok := r.(StrV); ok {
 			if c, ok := s.conc(); ok {
@@ -370,7 +370,7 @@ func (e *Exec) goArg(v Value) (interface{}, bool) {
 		}
 		return nil, false
 	}
-	if m := e.prog.LookupMethod(iv.t, nil, "String"); m != nil && m.Signature.Params().Len() == 0 && m.Blocks != nil {
+	if m := e.findMethod(iv.t, "String"); m != nil && m.Signature.Params().Len() == 0 && m.Blocks != nil {
 		r := e.call(nil, 0, m, []Value{iv.v})
 		if s, ok := r.(StrV); ok {
 			if c, ok := s.conc(); ok {
@@ -1026,4 +1026,13 @@ func extNondetPick(e *Exec, _ *frame, _ token.Pos, _ *ssa.Function, args []Value
 	e.vec = append(e.vec, VecEntry{Name: name, T: sel})
 	e.assertPC(e.ts.Cmp(OpULt, sel, e.ts.Const(64, uint64(n))))
 	return acc
+}
+
+// findMethod looks up an exported method by name in the method set of t (nil if absent).
+func (e *Exec) findMethod(t types.Type, name string) *ssa.Function {
+	sel := e.prog.MethodSets.MethodSet(t).Lookup(nil, name)
+	if sel == nil {
+		return nil
+	}
+	return e.prog.MethodValue(sel)
 }
